@@ -236,3 +236,67 @@ class LabelItem(FunctionContract):
 
 
 CONTRACTS = [ResolvePeriodSlice(), LabelItem('__getitem__'), LabelItem('__setitem__')]
+
+
+class LocateDispatch(FunctionContract):
+    """_locate_period_in_span: the first available look-up (get_loc, then index, then the array fall-back) decides; whatever it returns is
+    returned unchanged; any exception it raises becomes KeyError(period) chained to it; later methods are never consulted."""
+    qualname = 'fsic.core.containers.VectorContainer._locate_period_in_span'
+    props = ('C10', 'C05')
+
+    def scenarios(self):
+        return ['get_loc', 'index', 'both', 'neither']
+
+    def setup(self, interp, scenario):
+        from pyvc.values import SExc, SInt
+        ctx = interp.ctx
+        e = {'scenario': scenario, 'calls': [], 'inputs': {}}
+        period = SInt(ctx.fresh('period', INT))
+        e['period'] = period
+
+        def method(tag):
+            class M:
+                def vc_call(self_, interp_, args, kwargs, node):
+                    e['calls'].append((tag, list(args)))
+                    if ctx.choose(2, f'{tag}-raises') == 1:
+                        exc = SExc(ValueError if tag == 'index' else KeyError, origin=tag)
+                        e['exc'] = exc
+                        raise PyRaise(exc)
+                    r = SInt(ctx.fresh(f'{tag}.result', INT))
+                    e['result'] = r
+                    return r
+            return M()
+
+        class Span:
+            pass
+        span = Span()
+        if scenario in ('get_loc', 'both'):
+            span.get_loc = method('get_loc')
+        if scenario in ('index', 'both'):
+            span.index = method('index')
+        e['span'] = span
+        fb = method('fallback')
+
+        def fallback(interp_, o, args, kwargs, node):
+            return fb.vc_call(interp_, args, kwargs, node)
+        interp.registry.set_calls({'fsic.core.containers.VectorContainer._locate_period_in_span_fallback': fallback})
+        obj = SObj(VectorContainer, {'span': span}, label='c')
+        return Call([period], {}, self_obj=obj, entry=e)
+
+    def post(self, interp, scenario, call, out):
+        ctx = interp.ctx
+        e = call.entry
+        first = {'get_loc': 'get_loc', 'index': 'index', 'both': 'get_loc', 'neither': 'fallback'}[scenario]
+        calls = e['calls']
+        ctx.prove(z3.BoolVal(len(calls) == 1 and calls[0][0] == first), 'only_the_first_available_look_up_is_consulted_(get_loc,_index,_fall_back)', 'ensures', note=str([c[0] for c in calls]))
+        if calls:
+            args = calls[0][1]
+            ctx.prove(z3.BoolVal(args[0] is e['period'] and (first != 'fallback' or (len(args) == 2 and args[1] is e['span']))), 'label_(and_span)_passed_unchanged', 'ensures')
+        if out.kind == 'raise':
+            ok = exc_class(out.exc) is KeyError and isinstance(out.exc, SExc) and out.exc.cause is e.get('exc') and e.get('exc') is not None
+            ctx.prove(z3.BoolVal(ok), 'any_look_up_failure_becomes_KeyError_chained_to_it', 'raises')
+            return
+        ctx.prove(z3.BoolVal(out.value is e.get('result')), 'returns_the_look_up_result_unchanged', 'ensures')
+
+
+CONTRACTS.append(LocateDispatch())
